@@ -266,6 +266,82 @@ func sendAll(kind string, recs [][]byte) (stream []byte, outs [][]byte, errs []e
 	return append([]byte(nil), w.Bytes()...), outs, errs
 }
 
+// holdWriter blocks inside Write - holding on to the caller's slice, as a slow transport does -
+// until released, and only then copies the bytes.
+type holdWriter struct {
+	entered chan struct{}
+	release chan struct{}
+	got     bytes.Buffer
+	once    sync.Once
+}
+
+func (w *holdWriter) Write(p []byte) (int, error) {
+	first := false
+	w.once.Do(func() { first = true; close(w.entered) })
+	if first {
+		<-w.release
+	}
+	return w.got.Write(p)
+}
+func (w *holdWriter) Close() error { return nil }
+
+// c11SharedFraming: a Framing value is a constructor; channels built from one value are
+// independent streams. One channel's Send is held inside the transport Write while a sibling
+// channel sends; each stream must still decode to exactly its own record.
+func c11SharedFraming(res *Result, rng *rand.Rand) {
+	for _, kind := range c11Kinds() {
+		if kind == "direct" {
+			continue
+		}
+		f := framingByName(kind)
+		for round := 0; round < 3; round++ {
+			recs := c11Records(rng, kind, false)
+			if len(recs) < 2 {
+				continue
+			}
+			a, b := recs[0], recs[len(recs)-1]
+			hw := &holdWriter{entered: make(chan struct{}), release: make(chan struct{})}
+			var wb bufWC
+			chA := f(bytes.NewReader(nil), hw)
+			chB := f(bytes.NewReader(nil), &wb)
+			errA := make(chan error, 1)
+			go func() { errA <- chA.Send(a) }()
+			in := map[string]any{"kind": kind, "a": hx(a), "b": hx(b)}
+			select {
+			case <-hw.entered:
+			case e := <-errA:
+				close(hw.release)
+				if e != nil {
+					res.Violatef("Send refused a legal record", in, "%v", e)
+				}
+				continue // nothing written (raw framing of an empty record writes "null\n": still enters) - nothing to hold
+			case <-time.After(5 * time.Second):
+				res.Violatef("Send never reached the transport", in, "")
+				continue
+			}
+			eb := chB.Send(b)
+			close(hw.release)
+			ea := <-errA
+			if ea != nil || eb != nil {
+				res.Violatef("Send refused a legal record", in, "a: %v b: %v", ea, eb)
+				continue
+			}
+			_, gotA := recvSeq(f(bytes.NewReader(hw.got.Bytes()), &bufWC{}), 1)
+			_, gotB := recvSeq(f(bytes.NewReader(wb.Bytes()), &bufWC{}), 1)
+			res.Case(fmt.Sprintf("shared/%s/%d/%d", kind, len(a), len(b)), true, in)
+			res.Count("shared-framing-value")
+			if len(gotA) != 1 || !bytes.Equal(gotA[0], a) {
+				res.Violatef("two channels built from one Framing value interfere: a record held in the transport was overwritten by a sibling channel's Send", in,
+					"%s: channel A sent %s, its stream decodes to %v", kind, abbrev1(hx(a)), gotA)
+			}
+			if len(gotB) != 1 || !bytes.Equal(gotB[0], b) {
+				res.Violatef("two channels built from one Framing value interfere: a record held in the transport was overwritten by a sibling channel's Send", in,
+					"%s: channel B sent %s, its stream decodes to %v", kind, abbrev1(hx(b)), gotB)
+			}
+		}
+	}
+}
+
 func TestC11(t *testing.T) {
 	res := newResult("C11", "record sequences legal for each framing (Split with 6 delimiters incl. >=0x80, StrictHeader, Header, LSP, RawJSON, Direct), sizes 0..3MiB growing and shrinking, pipelined; each stream re-read under several cut scripts (1-byte reads, data+EOF, buffer-boundary cuts, random); thorough adds every cut set of small streams. distinct = (framing, record-length vector, cut script); non-trivial = at least one non-empty record")
 	defer res.Write(t)
@@ -273,6 +349,7 @@ func TestC11(t *testing.T) {
 	var lines, impl []string
 	var inputs []any
 	nLists := pick(40, 250)
+	c11SharedFraming(res, rng)
 	for _, kind := range c11Kinds() {
 		for li := 0; li < nLists; li++ {
 			big := li%10 == 9
